@@ -284,7 +284,8 @@ def check(report: Report, repo: Repo) -> None:
                 report.add("R5-init", cons, None, f"outside fragment: {ex}")
                 continue
             nrm = [e for e in it.events if e.kind == "call" and e["callee"] == "torch.nn.init.normal_"]
-            okn = len(nrm) == 1 and len(nrm[0]["args"]) == 1 and not nrm[0]["kwargs"] and nrm[0]["args"][0] is w
+            bn = (nrm[0]["bound"] or {}) if len(nrm) == 1 else {}
+            okn = len(nrm) == 1 and bn.get("tensor") is w and TM.expr_equal(bn.get("mean", 0), 0) is True and TM.expr_equal(bn.get("std", 1), 1) is True
             report.add("R5-init", f"{cons}::weight", okn, f"bias={has_bias}: weights are drawn by nn.init.normal_(self.weight) with default mean 0 / std 1", [(fmt(e['args']), fmt(e['kwargs'])) for e in nrm], "normal_(self.weight)")
             zero = [e for e in it.events if e.kind == "inplace" and "bias" in (e.get("alias") or ())]
             okz = (len(zero) == 1 and zero[0]["op"] == "zero_") if has_bias else not zero
@@ -388,6 +389,10 @@ def check_depth_containers(report: Report, repo: Repo, rule: str) -> None:
             "weight tying: the same layer instance four times": ([shared, shared, shared, shared], 4, None),
             "an untagged parameter": ([layer("a"), layer("plain", tagged=False)], None, "ValueError"),
         }
+        if kind == "ModuleList":
+            from ..values import OneShot
+
+            scen["a generator of three layers (one-shot iterable)"] = ([OneShot([layer("a"), layer("b"), layer("c")])], 3, None)
         if kind == "Sequential":
             scen["one OrderedDict of three named layers"] = ([{"first": layer("a"), "second": layer("b"), "third": layer("c")}], 3, None)
         for sname, (mods, want_depth, want_exc) in scen.items():
@@ -397,7 +402,8 @@ def check_depth_containers(report: Report, repo: Repo, rule: str) -> None:
             selfv = Obj(cname, cls=it.get_global(MD, cname), term=T("param", ("self",)))
             it.events = []
             try:
-                it.call_function(init, [selfv, list(mods)] if kind == "ModuleList" else [selfv, *mods], {})
+                gen = kind == "ModuleList" and len(mods) == 1 and not isinstance(mods[0], Obj)
+                it.call_function(init, [selfv, (mods[0] if gen else list(mods))] if kind == "ModuleList" else [selfv, *mods], {})
             except Unsupported as ex:
                 report.add(rule, cons, None, f"{sname}: outside fragment: {ex}")
                 continue
@@ -405,7 +411,10 @@ def check_depth_containers(report: Report, repo: Repo, rule: str) -> None:
             if want_exc:
                 report.add(rule, f"{cons}::untagged", raised == [want_exc], f"{sname}: an untagged parameter inside a depth container is refused with ValueError", raised, [want_exc])
                 continue
-            flat = [m for x in mods for m in (x.values() if isinstance(x, dict) else [x])]
+            flat = [m for x in mods for m in (x.values() if isinstance(x, dict) else (list(x) if isinstance(x, tuple) else [x]))]
+            if isinstance(selfv.attrs.get("_modules"), dict) and len(selfv.attrs["_modules"]) != want_depth:
+                report.add(rule, f"{cons}::populated", False, f"{sname}: the container must hold all {want_depth} layers after construction", len(selfv.attrs["_modules"]), want_depth)
+                continue
             depths_ = [m.attrs["_p"].attrs.get("mup_scaling_depth") for m in flat]
             okd = not raised and all(d == want_depth for d in depths_)
             report.add(rule, f"{cons}::depth", okd, f"{sname}: every parameter records depth = number of layers in the container (len(self) = {want_depth})", depths_, want_depth)
